@@ -859,7 +859,7 @@ class NonMementoFunctionHashRule(HashRule):
         # noinspection PyUnresolvedReferences
         super().__init__(
             key="Function;{};{}".format(
-                parent_symbol, obj.__module__ + ":" + obj.__qualname__
+                parent_symbol, self._function_name(obj, symbol)
             ),
             parent_symbol=parent_symbol,
             symbol=symbol,
@@ -867,6 +867,19 @@ class NonMementoFunctionHashRule(HashRule):
         )
         self.src_fn = obj
         self.resolver = resolver
+
+    @staticmethod
+    def _function_name(obj: Callable, symbol: str) -> str:
+        """
+        Name that identifies the function within the rule key. Anonymous functions all have the
+        same `__qualname__` (`<lambda>`), so they are told apart by the symbol they are bound to.
+
+        """
+        # noinspection PyUnresolvedReferences
+        name = obj.__module__ + ":" + obj.__qualname__
+        if obj.__qualname__.endswith("<lambda>"):
+            name += "@" + symbol
+        return name
 
     def clone(self) -> HashRule:
         return NonMementoFunctionHashRule(
@@ -900,7 +913,7 @@ class NonMementoFunctionHashRule(HashRule):
 
         for dep in list_dotted_names(src_fn):
             # noinspection PyUnresolvedReferences
-            symbol_parent = src_fn.__module__ + ":" + src_fn.__qualname__
+            symbol_parent = self._function_name(src_fn, self.symbol)
             HashRule._visit_dependency(
                 result=result,
                 src_fn=src_fn,
